@@ -12,7 +12,7 @@ EXTENDS PgServer
 Fair == /\ \A k \in Closers : /\ SF_svars(KLock(k))
                               /\ WF_svars(KDecide(k) \/ KUnlock(k) \/ KWaitBegin(k) \/ KWaitEnd(k) \/ KReturn(k))
         /\ \A c \in Conns : /\ SF_svars(CLock(c))
-                            /\ WF_svars(CDecide(c) \/ CEnter(c) \/ CFinish(c) \/ CLoop(c))
+                            /\ WF_svars(CDecide(c) \/ CEnter(c) \/ CStart(c) \/ CFinish(c) \/ CLoop(c))
         /\ WF_svars(CloserGo) /\ WF_svars(ServeReturn)
 LiveSpec == SInit /\ [][SNext]_svars /\ Fair
 
